@@ -107,5 +107,12 @@ Example ex_tex_functions :
           (ACall "Abs" [ABin OSub (AVar "x") (AVar "y")])).
 Proof. vm_compute. reflexivity. Qed.
 
+Example ex_tex_adjacent_numerals_rejected : parse_tex ["a"] "2 3^{a}" = None.
+Proof. vm_compute. reflexivity. Qed.
+
+Example ex_tex_cdot_between_numerals :
+  parse_tex ["a"] "2 \cdot 3^{a}" = Some (ABin OMul (ANum 2%N 0%Z) (ABin OPow (ANum 3%N 0%Z) (AVar "a"))).
+Proof. vm_compute. reflexivity. Qed.
+
 Example ex_tex_unknown_letter_is_rejected : parse_tex ["x"] "x q" = None.
 Proof. vm_compute. reflexivity. Qed.
